@@ -2,8 +2,10 @@
 # mut.sh <prop> <file> <sed-expr> : apply a mutation to /repo, run the check, revert
 prop=$1; file=$2; expr=$3
 cp /repo/$file /tmp/mut.bak
+cp /verif/evidence/$prop.json /tmp/mut.ev.bak 2>/dev/null
 sed -i "$expr" /repo/$file
 if cmp -s /repo/$file /tmp/mut.bak; then echo "MUTATION DID NOT APPLY"; exit 2; fi
 (cd /repo && GOFLAGS=-mod=mod GOPROXY=off GOTOOLCHAIN=local go build ./$(dirname $file)/ 2>&1 | head -3)
 /verif/check $prop 2>&1 | grep -v "^MACHINERY: UNCLAIMED" | cut -c1-220 | tail -6
 cp /tmp/mut.bak /repo/$file
+cp /tmp/mut.ev.bak /verif/evidence/$prop.json 2>/dev/null
